@@ -69,6 +69,7 @@ def _built_shape(ch):
     spec = {"kind": k, "nums": [_n(ch) for _ in range(10)], "pos": [abs(_n(ch)) + 0.5 for _ in range(4)], "tr": ch.choice(TRS), "fill": ch.choice(FILLS), "stroke": ch.choice(FILLS), "sw": ch.choice([None, 1, 2.5, 0.25]), "id": ch.choice([None, None, "s%d" % ch.int(1, 99)])}
     if k == "Path":
         spec["d"] = gp.render(gp.gen_cmds(ch, ch.int(2, 6), mag=100.0, allow_zc=False, arc_zero=False), 0)
+        spec["d_kw"] = ch.coin(0.4)
     if ch.coin(0.08):
         # magnitudes that leave the plain decimal spelling (below 1e-4, from 1e12): exponent forms in the written numbers
         f = ch.choice([1e-10, 1e-20, 1e-7, 1e12])
@@ -146,6 +147,8 @@ def _build_shape(se, spec):
         s = se.Polyline(*n[:8])
     elif k == "Polygon":
         s = se.Polygon(*n[:8])
+    elif spec.get("d_kw"):
+        s = se.Path(d=spec["d"])
     else:
         s = se.Path(spec["d"])
     if spec["tr"]:
@@ -426,6 +429,24 @@ def execute(case, se, out, trace):
     if t1 != t2:
         raise V("write-not-repeatable", ["string"], "two consecutive string_xml() calls on the same tree differ: %r ... vs %r ..." % (_first_diff(t1, t2)))
     out.count("probe:write-twice-compared")
+    # the same source through a pristine instance of the library (what a freshly started process would write):
+    # the text must not depend on what this long-lived process has written or parsed before
+    try:
+        sp = core.fresh_se()
+        if case["source"] == "doc":
+            twin = sp.SVG.parse(io.StringIO(xml), reify=case["reify"], ppi=case["ppi"])
+        else:
+            twin = build_tree(sp, case["tree"])
+        t3 = twin.string_xml()
+    except Exception as e:
+        if core.is_harness_exc(e):
+            raise
+        t3 = None
+        out.count("skip:pristine-write-raises")
+    if t3 is not None and t3 != t1:
+        raise V("write-history-dependent", ["string"], "string_xml() of this process differs from what a pristine instance of the library writes for the same source: %r ... vs %r ..." % (_first_diff(t1, t3)))
+    if t3 is not None:
+        out.count("probe:pristine-write-compared")
     fault = case["fault"]
     out.count("fault:" + fault["kind"] if fault["kind"] != "none" else "fault:none-scheduled")
     trace.ev("gen0", case["source"], len(cur_obs))
